@@ -88,6 +88,41 @@ def nesting_pair(c):
     return '?'
 
 
+def declbody_program(v):
+    """loops whose body holds only declarations (no code), or code the optimiser deletes, placed after statements that
+    leave an empty record or an empty-block marker at the loop's start address; the loop's condition fails at run time,
+    so the reported line shows which statement the condition code is attributed to"""
+    def num(x):
+        return {'k': 'num', 't': 'I', 'v': x}
+
+    def var(nm, t='I'):
+        return {'k': 'lv', 'n': nm, 'ix': [], 'fl': [], 't': t}
+
+    def pr(x):
+        return {'k': 'print', 'items': [{'k': 'e', 'e': num(x)}]}
+    bad = {'k': 'bin', 'o': 'eq', 'l': {'k': 'par', 'a': {'k': 'bin', 'o': 'idiv', 'l': num(10), 'r': var('z%')}}, 'r': num(3)}
+    decl = {'k': 'nop', 'text': 'DIM q%d AS INTEGER' % v}
+    cst = {'k': 'nop', 'text': 'CONST cc%d = 1' % v}
+    selfassign = {'k': 'let', 'lv': var('g$', 'T'), 'e': var('g$', 'T')}
+    ifblk = {'k': 'if', 'arms': [{'c': {'k': 'bin', 'o': 'eq', 'l': var('z%'), 'r': num(0)}, 'body': [pr(1)]}], 'els': [], 'hasels': False}
+    main = [{'k': 'let', 'lv': var('z%'), 'e': num(0)}, {'k': 'let', 'lv': var('g$', 'T'), 'e': {'k': 'str', 'b': [97]}}]
+    if v == 0:      # DO / CONST / LOOP UNTIL c
+        main += [{'k': 'do', 'pre': '', 'prec': num(0), 'post': 'until', 'postc': bad, 'body': [cst]}]
+    elif v == 1:    # IF..END IF, then WHILE c / DIM / WEND
+        main += [ifblk, {'k': 'while', 'c': bad, 'body': [decl]}]
+    elif v == 2:    # CONST, then WHILE c / DIM / WEND
+        main += [cst, {'k': 'while', 'c': bad, 'body': [decl]}]
+    elif v == 3:    # DO WHILE c / CONST / LOOP after an IF block
+        main += [ifblk, {'k': 'do', 'pre': 'while', 'prec': bad, 'post': '', 'postc': num(0), 'body': [cst]}]
+    elif v == 4:    # a body the optimiser deletes
+        main += [selfassign, {'k': 'while', 'c': bad, 'body': [selfassign]}]
+    else:           # the same inside a SELECT arm, after END SELECT
+        sel = {'k': 'select', 'e': var('z%'), 'cases': [{'cl': [{'k': 'v', 'v': num(0)}], 'body': [pr(2)]}], 'els': []}
+        main += [sel, {'k': 'do', 'pre': '', 'prec': num(0), 'post': 'until', 'postc': bad, 'body': [decl]}]
+    main.append(pr(9))
+    return {'types': [], 'consts': [], 'shared': [], 'main': gen.flatten(main), 'procs': []}
+
+
 def elseif_program(n):
     """an IF block with n ELSEIF arms (each condition differs), with and without ELSE, nested once"""
     def num(v):
@@ -113,6 +148,12 @@ def _job(job):
     kind, payload, O = job
     if kind == 'gen':
         prog, text, ast, li = gen.generate_info(payload, size=10, depth=3, wide=True)
+    elif kind == 'declbody':
+        prog = declbody_program(payload)
+        u = gen.Unparser(prog)
+        text = u.text()
+        ast = gen.strip_for_tlc(prog)
+        li = u.lineinfo
     elif kind == 'elseif':
         prog = elseif_program(payload)
         u = gen.Unparser(prog)
@@ -184,6 +225,9 @@ def _run(ctx, work):
     for n in (1, 2, 3, 4):
         for O in (0, 1, 2):
             jobs.append(('elseif', n, O))
+    for v in range(6):
+        for O in (0, 1, 2):
+            jobs.append(('declbody', v, O))
     res = par.pmap(_job, jobs, chunk=2)
     cases, metas, qcases = [], [], []
     for r in res:
